@@ -19,6 +19,8 @@ import struct
 import subprocess
 import sys
 import threading
+import concurrent.futures
+import resource
 import time
 
 from vlib import common
@@ -32,7 +34,7 @@ LEVEL = "proof"
 TECHNIQUE = ("Lean 4 proofs over tables regenerated from the source (exception hierarchy / throw sites / catch chains; buffer sizes and guards) "
              "and over hand models of the fixed-buffer loops, + injection/number correspondence and sanitizer-backed malformed-input search "
              "against the working-tree library")
-LEVEL_TEXT = ("Partial machine-checked proof (41 theorems, Props/C03.lean). Proved for all inputs: (a) error mapping over the regenerated class table and catch "
+LEVEL_TEXT = ("Partial machine-checked proof (48 theorems, Props/C03.lean). Proved for all inputs: (a) error mapping over the regenerated class table and catch "
               "chains: C++ handler dispatch is first-match; each of compileStylesheet/parseSource/doTransform ends in catch(...) with non-zero statuses, so whatever is "
               "thrown the method returns a status (every_exception_caught); for the four library exception families with a non-empty text, and for bad_alloc / Xerces "
               "OutOfMemoryException / DOMException / std::exception always, the message is non-empty; no typed handler is dead; every exported int C function reaches only "
@@ -43,22 +45,23 @@ LEVEL_TEXT = ("Partial machine-checked proof (41 theorems, Props/C03.lean). Prov
               "their range guards); (c) the stylesheet handler's decision tables, regenerated: no element token falls through, and with-param / sort / when / otherwise are refused outside "
               "the parents the XSLT content model names; (d) the recursion guard of lazily evaluated top-level variables: for every dependency graph the evaluation ends in a value or a "
               "circular-definition error within N+1 nested evaluations (whole-stack search, as the regenerated flag confirms); (e) every getMessage overload's character limit fits its "
-              "stack buffer (regenerated overload table and catalogue); (f) XalanParsedURI::parse reads inside its buffer (exactly sized if the regenerated flag says its two free-standing tests are bounded, else only with a "
+              "stack buffer (regenerated overload table and catalogue); (g) the template depth guard counts every push (regenerated flag): any sequence of pushes and pops, null or not, that would exceed eMaximumTemplateDepth is reported and the stack never exceeds it; (h) the retry loop of the local-code-page transcoding reaches a sufficient buffer for every source needing <= 3 bytes per UTF-16 unit (regenerated factor/step); (f) XalanParsedURI::parse reads inside its buffer (exactly sized if the regenerated flag says its two free-standing tests are bounded, else only with a "
               "terminating 0) and resolve is total: the dot-segment removal never indexes outside the path and terminates, for every base and reference. The memory-safety / UB / leak / hang part of the property for all other code is searched, not proved: malformed and adversarial stylesheets, "
               "sources, XPath strings, parameters and URLs through every entry point (sanitizer build in the thorough tier), each followed by a known-good transformation, plus "
               "re-use of one compiled stylesheet after an aborted run, more decimal-formats than the formatter cache holds, buffer-boundary outputs, failing imports and a "
-              "template-recursion depth ramp including recursion without end, the complete (parent, child, attribute-variant) matrix of XSLT elements, and error-path families (failing modules at import/include depth 1..3, failing document() loads, "
+              "template-recursion depth ramp, recursion without an end through 20 frame-pushing constructs x call-template / apply-templates / apply-imports (cycles of one and two templates) under a memory and time budget, the complete (parent, child, attribute-variant) matrix of XSLT elements, and error-path families (failing modules at import/include depth 1..3, failing document() loads, "
               "extension elements, reference cycles of length 1..5) on a counting memory manager that must show no outstanding block after the transformer is destroyed; every catalogue message through every overload and 33 quoting "
               "error kinds with substituted texts of 0..70000 characters; URI references x bases directly and through include/import/document().")
 LEVEL_NOTE = ("Trusted: Lean kernel (leanchecker in the thorough tier); axioms propext/Classical.choice/Quot.sound only; translate/c03_exceptions.py, c03_buffers.py, c03_messages.py (regex readers of the "
               "C++ source and the Xerces headers) and c03_inventory.py (clang-14 typed AST); the hand transcriptions in lean/XalanModel/C03/*.lean (int2alphaCount, "
               "ScalarToDecimalString and the number path are validated by the correspondence run; the conflicts, transcode, getPreviousNode and tokenizer models are tied by shape "
               "checks of the translator only and abstract pattern matching, the transcoder and DOM navigation into parameters with the stated hypotheses: table size <= "
-              "m_patternCount, transcoder makes source progress whenever it writes, previous node has a smaller document-order number). Assumed: Xerces-C loadMsg/XMLString::replaceTokens never store more than maxChars characters + NUL; the buffers handed to XalanParsedURI by Xalan itself are c_str()s (terminating 0). glibc sprintf(\"%.Nf\") stores "
+              "m_patternCount, transcoder makes source progress whenever it writes, previous node has a smaller document-order number). Assumed: the local code page needs at most 3 bytes per UTF-16 unit (UTF-8, EUC, Shift-JIS, Big5, ISO-8859; not GB18030) and XMLString::transcode succeeds exactly when the target has room; Xerces-C loadMsg/XMLString::replaceTokens never store more than maxChars characters + NUL; the buffers handed to XalanParsedURI by Xalan itself are c_str()s (terminating 0). glibc sprintf(\"%.Nf\") stores "
               "sign+digits+1+N characters + NUL and sprintf(\"%.17e\") an exponent field of at most three digits. NOT proved, only searched with sanitizers "
               "and bounded by generator coverage: memory safety, undefined behaviour, leaks and termination of all other code (XPath parser and evaluator, stylesheet builder and "
-              "executor, serializers, source tree, Xerces/ICU); thread interleavings. The mutation generator does not create unbounded template recursion (three fixed endless "
-              "stylesheets are tested); a hang on a mutated stylesheet that still contains apply-templates/call-template is counted as inconclusive. Unmodelled fixed arrays / "
+              "executor, serializers, source tree, Xerces/ICU); thread interleavings. The depth-guard theorems assume what the translator checks by shape only: every template instantiation and every xsl:for-each pushes "
+              "through pushCurrentTemplate and pops on the way out; that a recursion through other constructs reaches the guard within the memory and time budget is searched (recursion "
+              "family), not proved. The mutation generator does not create unbounded template recursion (the endless stylesheets are the recursion family); a hang on a mutated stylesheet that still contains apply-templates/call-template is counted as inconclusive. Unmodelled fixed arrays / "
               "conversions are listed in the evidence (unmodelled_sites).")
 DESIGN_REF = "DESIGN.md section 5, C03; design/C03.md"
 
@@ -105,6 +108,13 @@ THEOREMS = [P + n for n in (
     "uri_parse_unterminated_counterexample",
     "uri_resolve_total",
     "uri_unguarded_decrement_counterexample",
+    "template_depth_guard_reports_every_unbounded_recursion",
+    "template_depth_guard_at_most_limit_pushes",
+    "template_depth_guard_bounded_no_false_alarm",
+    "template_depth_guard_null_skipping_counterexample",
+    "template_depth_guard_equality_counterexample",
+    "local_transcode_growth_covers_three_bytes_per_unit",
+    "local_transcode_growth_factor_two_counterexample",
 )]
 
 INJECT_CLASSES = ["XSLException", "XalanXPathException", "XPathParserException", "XSLTProcessorException", "ElemMessageTerminateException",
@@ -128,11 +138,12 @@ def hx(b):
 # running request lines through the harness with crash / hang attribution
 
 class Runner:
-    def __init__(self, exe, env, case_timeout):
+    def __init__(self, exe, env, case_timeout, as_limit_mb=None):
         self.exe = exe
         self.env = dict(os.environ)
         self.env.update(env)
         self.case_timeout = case_timeout
+        self.as_limit_mb = as_limit_mb      # RLIMIT_AS of the child: the memory budget of a request (not usable under ASan: shadow memory)
         self.work = os.path.join(common.CACHE, "work")
         os.makedirs(self.work, exist_ok=True)
         self.seq = 0
@@ -149,7 +160,13 @@ class Runner:
                 self.seq += 1
                 errp = os.path.join(self.work, "c03_%s_%d_%d.err" % (tag, os.getpid(), self.seq))
             errf = open(errp, "wb")
-            p = subprocess.Popen([self.exe, mode], stdin=subprocess.PIPE, stdout=subprocess.PIPE, stderr=errf, env=self.env)
+            lim = None
+            if self.as_limit_mb:
+                nbytes = self.as_limit_mb << 20
+
+                def lim():
+                    resource.setrlimit(resource.RLIMIT_AS, (nbytes, nbytes))
+            p = subprocess.Popen([self.exe, mode], stdin=subprocess.PIPE, stdout=subprocess.PIPE, stderr=errf, env=self.env, preexec_fn=lim)
             chunk = lines[start:]
             data = ("\n".join(chunk) + "\n").encode("ascii")
 
@@ -385,7 +402,7 @@ def run(ctx):
         "glibc sprintf(\"%.Nf\") stores sign+integer digits+1+N characters + NUL (model parameter; validated on the generated doubles)",
         "modelled, not verified: everything outside the generated tables and the three transcribed loops — reached only by the sanitizer-backed search",
     ]
-    ctx.assumptions += ["the mutation generator does not turn bounded template recursion into unbounded recursion (three fixed unbounded stylesheets are tested separately; a hang on a mutated stylesheet that still contains apply-templates/call-template is counted as inconclusive)"]
+    ctx.assumptions += ["the mutation generator does not turn bounded template recursion into unbounded recursion (the unbounded stylesheets of the recursion family are tested separately; a hang on a mutated stylesheet that still contains apply-templates/call-template is counted as inconclusive)"]
     flavor = "asan" if ctx.thorough else "hooks"
     ctx.build("hooks")
     if ctx.thorough:
@@ -816,19 +833,43 @@ def run(ctx):
         if d.get("rc") != "0" or d.get("fu") != "1" or (kind != "call-element" and out != "done"):
             ctx.fail("recursion.wrong-result[bounded-%s]: depth %d" % (kind, dp), "terminating recursion of depth %d did not produce its result: %s" % (dp, (rep or "")[:300]),
                      {"mode": "xslt", "line": line})
-    inf_runner = Runner(harness, env, case_timeout=(400 if ctx.thorough else 90))
-    inflines = ["xf %s %s" % (hx(c03_gen.recursion_stylesheet(k)), hx("<r><i/></r>")) for k in ("infinite-call", "infinite-apply", "infinite-mutual")]
-    infres, _ = run_parallel(inf_runner, "xslt", inflines, 3, "inf")
-    for k, (rep, prob), line in zip(("infinite-call", "infinite-apply", "infinite-mutual"), infres, inflines):
+    # Recursion without an end — through every construct that pushes a frame (for-each, variable / with-param / param bodies, attribute sets,
+    # fallback, sort keys and lazily evaluated globals, result-tree builders …) x call-template / apply-templates / apply-imports, as cycles of
+    # one template and of two with alternating constructs — must end in a REPORTED error within the budget of a request: the time limit and a
+    # memory limit (RLIMIT_AS of the child; under ASan its hard_rss_limit_mb).  Reaching the memory limit ("Out of memory") is over budget.
+    mem_mb = 3000
+    inf_env = dict(env)
+    if flavor == "asan":
+        inf_env["ASAN_OPTIONS"] = env["ASAN_OPTIONS"] + ":hard_rss_limit_mb=%d" % (3 * mem_mb)
+    inf_runner = Runner(harness, inf_env, case_timeout=(900 if ctx.thorough else 100), as_limit_mb=(None if flavor == "asan" else mem_mb))
+    infcases = [(k, c03_gen.recursion_stylesheet(k)) for k in ("infinite-call", "infinite-apply", "infinite-mutual")]
+    infcases += c03_gen.recursion_family(os.path.join(work, "c03_recursion"), r, ctx.thorough)
+    # (the body of xsl:with-param under deep recursion costs time quadratic in the depth — a minute per case, several under ASan: quick keeps the
+    #  cheapest one, thorough the three cycles of one template and the pairs with plain / for-each)
+    if not ctx.thorough:
+        infcases = [c for c in infcases if "with-param-body" not in c[0] or c[0] == "with-param-body/imports"]
+    else:
+        infcases = [c for c in infcases if "with-param-body" not in c[0] or "+" not in c[0] or
+                    any(c[0].startswith(o + "/") or ("+" + o + "/") in c[0] for o in ("plain", "for-each"))]
+    inflines = ["xf %s %s" % (hx(sty_), hx(c03_gen.REC_SOURCE)) for _, sty_ in infcases]
+    with concurrent.futures.ThreadPoolExecutor(max_workers=min(nproc, 6)) as ex:
+        infres = list(ex.map(lambda jl: inf_runner.run("xslt", [jl[1]], "inf%d" % jl[0])[0], enumerate(inflines)))
+    for (k, _), (rep, prob), line in zip(infcases, infres, inflines):
         ctx.case(nontrivial_key="recursion " + k, cls="recursion:unbounded")
         if prob:
             ctx.fail("recursion.%s[%s]" % (prob["kind"], k), "template recursion without an end must end in a reported error; instead: %s" % prob["detail"],
-                     {"mode": "xslt", "line": line})
+                     {"mode": "xslt", "line": line, "as_limit_mb": mem_mb})
             continue
         d = parse_reply(rep or "")
-        if d.get("esc", "none") != "none" or d.get("rc") == "0" or int(d.get("msg", "0")) == 0 or d.get("fu") != "1":
-            ctx.fail("recursion.bad-report[%s]" % k, "template recursion without an end must end in a non-zero status with a message and a usable transformer: " + (rep or "")[:300],
-                     {"mode": "xslt", "line": line})
+        err = bytes.fromhex(d["err"]).decode("utf-8", "replace") if d.get("err", "-") != "-" else ""
+        if d.get("esc", "none") != "none" or d.get("rc") == "0" or int(d.get("msg", "0")) == 0:
+            ctx.fail("recursion.bad-report[%s]" % k, "template recursion without an end must end in a non-zero status with a message: " + (rep or "")[:300],
+                     {"mode": "xslt", "line": line, "as_limit_mb": mem_mb})
+        elif "memory" in err.lower() or d.get("rc") == "-5":
+            ctx.fail("recursion.memory-budget[%s]" % k, "template recursion without an end was not recognised: it ran until the memory limit of the request (%d MB) and ended in %r" % (mem_mb, err[:80]),
+                     {"mode": "xslt", "line": line, "as_limit_mb": mem_mb})
+        elif d.get("fu") != "1":
+            ctx.fail("recursion.bad-report[%s]" % k, "after the reported recursion the transformer is not usable: " + (rep or "")[:300], {"mode": "xslt", "line": line, "as_limit_mb": mem_mb})
 
     # ---------------------------------------------------------------- 5b. structural stream: every XSLT element under every parent
     good_href = "file://" + os.path.join(work, "c03_import", "good.xsl")
@@ -982,6 +1023,42 @@ def run(ctx):
         culprit = bisect_report(runner, "xslt", mlines[a:b])
         ctx.fail("message.%s: %s" % (pr["kind"], mkeys[a + culprit] if culprit is not None else "?"), "%s: %s" % (pr["kind"], pr["detail"]),
                  {"mode": "xslt", "line": (mlines[a + culprit] if culprit is not None else "batch")[:3000]})
+
+    # error messages that quote NON-ASCII texts of the input (2-, 3-, 4-byte UTF-8 characters, 10..5000 of them): the status is non-zero AND
+    # getLastError() is a non-empty, valid UTF-8 string that contains the beginning of the quoted text (where the same kind of message quotes an
+    # ASCII text — calibrated in the same run); the local-code-page transcoding behind it has to grow its buffer up to 3 bytes per UTF-16 unit
+    ncases = c03_gen.nonascii_message_cases()
+    nlines = []
+    for key, kind, s_, src_, needle in ncases:
+        nlines.append("nd %s" % hx(needle))
+        nlines.append("xf %s %s" % (hx(s_), hx(src_)))
+    nres = runner.run("xslt", nlines, "nonascii")
+    quotes = {}
+    for j, (key, kind, s_, src_, needle) in enumerate(ncases):
+        rep, prob = nres[2 * j + 1]
+        line = nlines[2 * j + 1]
+        ctx.case(nontrivial_key="message-nonascii " + key, cls="message:" + kind)
+        if prob:
+            ctx.fail("message.%s[nonascii:%s]" % (prob["kind"], key), "%s while an error message quoting a non-ASCII text was built: %s" % (prob["kind"], prob["detail"]), {"mode": "xslt", "line": line})
+            continue
+        d = parse_reply(rep or "")
+        if key.endswith("/calibrate"):
+            quotes[kind] = d.get("rc") != "0" and d.get("nf") == "1"
+            continue
+        if d.get("esc", "none") != "none":
+            ctx.fail("message.escapes[nonascii:%s]" % key, "exception %s left the transformer" % d.get("esc"), {"mode": "xslt", "line": line})
+        elif d.get("rc") == "0":
+            continue
+        elif int(d.get("msg", "0")) == 0:
+            ctx.fail("message.empty[nonascii:%s]" % key, "non-zero status %s with an EMPTY getLastError() for an error whose message quotes a non-ASCII text" % d.get("rc"), {"mode": "xslt", "line": line})
+        elif d.get("eu") != "1":
+            ctx.fail("message.invalid-utf8[nonascii:%s]" % key, "getLastError() is not a valid UTF-8 string: %s" % (rep or "")[:300], {"mode": "xslt", "line": line})
+        elif quotes.get(kind) and d.get("nf") != "1":
+            ctx.fail("message.text-lost[nonascii:%s]" % key, "getLastError() does not contain the beginning of the quoted text (it does for an ASCII text): %s" % (rep or "")[:300], {"mode": "xslt", "line": line})
+        elif d.get("fu") != "1":
+            ctx.fail("message.not-usable[nonascii:%s]" % key, "the transformer is not usable afterwards: %s" % (rep or "")[:300], {"mode": "xslt", "line": line})
+    ctx.extra["nonascii_message_kinds_quoting"] = sorted(k for k, v in quotes.items() if v)
+    runner.run("xslt", ["nd -"], "nonascii-reset")
 
     # XalanParsedURI::resolve called directly on unterminated exactly-sized copies (reads past the end show under ASan), compared with the Lean model
     upairs = [(rf, b) for b in c03_gen.URI_BASES for rf in c03_gen.URI_REFS]
@@ -1150,6 +1227,8 @@ def replay(ctx, path):
     inp = first.get("input")
     ctx.build("hooks")
     flavor = "asan" if os.path.exists(os.path.join(common.build_dir("asan"), "src", "xalanc", "libxalan-c.so")) else "hooks"
+    if flavor == "asan":
+        ctx.build("asan")       # an existing sanitizer build may be older than the working tree
     harness = common.build_harness("c03_fuzz", ["c03_fuzz.cpp"], flavor=flavor, sanitize=(flavor == "asan"))
     if isinstance(inp, dict):
         mode, line = inp.get("mode", "xslt"), inp["line"]
@@ -1158,7 +1237,10 @@ def replay(ctx, path):
     else:
         print("replay file names broken obligations only:", json.dumps(d.get("broken_obligations"), indent=1)[:3000])
         return 1
-    runner = Runner(harness, {"ASAN_OPTIONS": "detect_leaks=1", "UBSAN_OPTIONS": "print_stacktrace=1:halt_on_error=1"}, 240)
+    mem_mb = inp.get("as_limit_mb") if isinstance(inp, dict) else None
+    asan_opts = "detect_leaks=1" + (":allocator_may_return_null=1:hard_rss_limit_mb=%d" % (3 * mem_mb) if mem_mb else "")
+    runner = Runner(harness, {"ASAN_OPTIONS": asan_opts, "UBSAN_OPTIONS": "print_stacktrace=1:halt_on_error=1"}, 900 if mem_mb else 240,
+                    as_limit_mb=(mem_mb if flavor != "asan" else None))
     rr = runner.run(mode, [line], "replay")
     print("request:", line[:2000])
     for a in line.split()[1:3]:
@@ -1168,4 +1250,9 @@ def replay(ctx, path):
             pass
     print("implementation (%s build):" % flavor, rr)
     bad = any(p for _, p in rr)
+    if mem_mb and not bad:
+        d0 = parse_reply(rr[0][0] or "")
+        err = bytes.fromhex(d0["err"]).decode("utf-8", "replace") if d0.get("err", "-") != "-" else ""
+        print("  status %s, message %r (memory budget of the request: %d MB)" % (d0.get("rc"), err[:200], mem_mb))
+        bad = d0.get("rc") == "0" or "memory" in err.lower() or d0.get("rc") == "-5"
     return 1 if bad else 0
